@@ -143,13 +143,19 @@ func (m *monitor) take() *run {
 type monHost struct {
 	host.Host
 	m *monitor
+	// realScope: the streams carry a real resource scope and a real connection (hosts over TCP):
+	// reservations are recorded and passed on instead of being decided by the harness
+	realScope bool
 }
 
 func (h *monHost) SetStreamHandler(pid protocol.ID, handler network.StreamHandler) {
 	h.Host.SetStreamHandler(pid, func(s network.Stream) {
 		r := h.m.take()
-		ms := &monStream{Stream: s, r: r}
+		ms := &monStream{Stream: s, r: r, realConn: h.realScope}
 		sc := &monScope{r: r}
+		if h.realScope {
+			sc.real = s.Scope()
+		}
 		ms.scope = sc
 		cur.Store(r)
 		defer func() {
@@ -188,12 +194,18 @@ func (h *monHost) SetStreamHandler(pid protocol.ID, handler network.StreamHandle
 
 type monStream struct {
 	network.Stream
-	r     *run
-	scope *monScope
+	r        *run
+	scope    *monScope
+	realConn bool
 }
 
 func (s *monStream) Scope() network.StreamScope { return s.scope }
-func (s *monStream) Conn() network.Conn         { return &monConn{Conn: s.Stream.Conn(), r: s.r} }
+func (s *monStream) Conn() network.Conn {
+	if s.realConn {
+		return s.Stream.Conn()
+	}
+	return &monConn{Conn: s.Stream.Conn(), r: s.r}
+}
 
 func (s *monStream) CloseRead() error {
 	s.r.emit("closeread")
@@ -293,19 +305,35 @@ const memBudget = 512 << 20
 
 type monScope struct {
 	network.NullScope
-	r *run
+	r    *run
+	real network.StreamScope // nil on the mock network
 }
 
-func (sc *monScope) SetService(string) error {
+func (sc *monScope) SetService(name string) error {
 	if sc.r.Fault == "setservice" {
 		sc.r.emit("setservice", "ok", false)
 		return errors.New("verif: injected SetService failure")
+	}
+	if sc.real != nil {
+		err := sc.real.SetService(name)
+		sc.r.emit("setservice", "ok", err == nil)
+		return err
 	}
 	sc.r.emit("setservice", "ok", true)
 	return nil
 }
 
-func (sc *monScope) ReserveMemory(size int, _ uint8) error {
+func (sc *monScope) ReserveMemory(size int, prio uint8) error {
+	if sc.real != nil && sc.r.Fault != "reserve" {
+		err := sc.real.ReserveMemory(size, prio)
+		sc.r.emit("reserve", "ok", err == nil, "n", size)
+		if err == nil {
+			sc.r.mu.Lock()
+			sc.r.reservedSum += size
+			sc.r.mu.Unlock()
+		}
+		return err
+	}
 	if sc.r.Fault == "reserve" || size > memBudget || size < 0 {
 		sc.r.emit("reserve", "ok", false, "n", size)
 		return network.ErrResourceLimitExceeded
@@ -318,6 +346,9 @@ func (sc *monScope) ReserveMemory(size int, _ uint8) error {
 }
 
 func (sc *monScope) ReleaseMemory(size int) {
+	if sc.real != nil {
+		sc.real.ReleaseMemory(size)
+	}
 	sc.r.emit("release", "n", size)
 	sc.r.mu.Lock()
 	sc.r.releasedSum += size
